@@ -26,7 +26,9 @@ EXPLANATION = (
     "the pops in the end handler on every path; R02d every token field that the regeneration code consumed on the "
     "pinned tree (sa/baseline/c02_fields.json, 100+ class.field pairs) is still read somewhere in the closure of "
     "the transformer — a field that is no longer consumed cannot reach the output; R02e (=R11d) pragma lines are "
-    "re-inserted at decoded line numbers. Not decided: that the consumed fields are recombined correctly "
+    "re-inserted at decoded line numbers; R02f every boolean local of the parser and the regenerator that is tested, "
+    "returned or handed on has more than one possible binding (three named constants) - a flag that can only hold "
+    "one value has lost the case it records. Not decided: that the consumed fields are recombined correctly "
     "(character-level equality is a run-time property)."
 )
 ASSUMPTIONS = ["the parser stores each source character in some token field (the converse direction, not checked here)"]
@@ -310,8 +312,43 @@ def r02d(ctx: Context) -> None:
                 rule.fail(key, location, f"'{field}' is no longer read in the closure of {who} ({role}): the part of the source recorded in that field cannot reach the regenerated document for this element")
 
 
+PIPELINE_EXCLUDED = ("pymarkdown/plugins/", "pymarkdown/plugin_manager/", "pymarkdown/extension_manager/")
+
+
+def single_valued_branches(ctx: Context, rule_id: str = "R02f", only: Optional[Tuple[str, ...]] = None, floor: int = 600) -> None:
+    """A local flag tested by a branch records something computed from the document (a container
+    started mid-line, a prefix was consumed, ...).  If every binding of the flag is the same
+    constant the branch is decided before the program runs and the distinction never reaches the
+    tokens or the regenerated text.  (Contradiction rule: a test says 'may differ', the bindings
+    say 'cannot'.)"""
+    from sa.triage import C02_CONSTANT_FLAGS
+    from sa.util import is_single_valued, single_valued_flags
+
+    prog = ctx.prog
+    rule = ctx.rule(rule_id, "no local flag of the parse / regeneration pipeline that is tested or handed on can hold one constant only", floor)
+    for func in prog.functions.values():
+        rel = func.module.rel
+        if rel.startswith(PIPELINE_EXCLUDED) or (only and not rel.startswith(only)):
+            continue
+        flags = single_valued_flags(func)
+        allowed = {f"{func.short}: {value!r}" for _name, value in flags if is_single_valued(value)} & set(C02_CONSTANT_FLAGS)
+        constant_count: Dict[str, int] = {}
+        for name, value in flags:
+            key = f"{func.short}: {name.id}"
+            if not is_single_valued(value):
+                rule.ok(key, "the flag has more than one possible value")
+                continue
+            table_key = f"{func.short}: {value!r}"
+            constant_count[table_key] = constant_count.get(table_key, 0) + 1
+            if table_key in allowed and constant_count[table_key] == 1:
+                rule.ok(table_key, "named constant: " + C02_CONSTANT_FLAGS[table_key])
+            else:
+                rule.fail(key, where(func, name), f"'{name.id}' is only ever bound to {value!r} in {func.short}, yet it is tested or handed on as a flag: the case it was meant to record is never recorded")
+
+
 def run(ctx: Context) -> None:
     r02a(ctx)
+    single_valued_branches(ctx)
     r02b(ctx)
     r02c(ctx)
     r02d(ctx)
